@@ -229,7 +229,12 @@ def evaluate(mod, case):
     except Exception as e:
         tb = traceback.extract_tb(e.__traceback__)
         repo = os.environ.get('PV_REPO', '/repo')
-        inner = tb[-1] if tb else None
+        here = os.path.dirname(os.path.realpath(__file__)) + os.sep
+        # innermost frame that belongs to the program under test or to the harness (library frames below it - numpy
+        # raising inside a call made by the program - are attributed to their caller)
+        own = [f for f in tb if os.path.realpath(f.filename).startswith(os.path.realpath(repo) + os.sep)
+               or os.path.realpath(f.filename).startswith(here)]
+        inner = own[-1] if own else (tb[-1] if tb else None)
         prog = [f for f in tb if os.path.realpath(f.filename).startswith(os.path.realpath(repo) + os.sep)]
         if prog and inner is not None and os.path.realpath(inner.filename).startswith(os.path.realpath(repo) + os.sep):
             return Result(fails=[('program-exception:%s@%s' % (type(e).__name__, inner.name),
